@@ -529,6 +529,25 @@ def process_fn(src, unit, key, spec, s, hp, ob, cb, add_edit, canary, disabled_r
     loops = spec.get('loops', {})
     if loops or spec.get('loop_obligations'):
         found = find_loops(src, ob, cb)
+        heads = spec.get('loop_heads')
+        if heads:
+            # loops addressed by the beginning of their header text (e.g. 'while', 'for sp in') instead of their bare position: loop n of the
+            # contract is the first not yet taken loop whose header starts that way; one that is not there is treated as a missing loop
+            taken, mapped = set(), {}
+            for n in sorted(heads):
+                for j, (kwp_, lob_) in enumerate(found):
+                    if j not in taken and ' '.join(text[kwp_:lob_].split()).startswith(heads[n]):
+                        taken.add(j)
+                        mapped[n] = found[j]
+                        break
+            nmax = max(list(heads) + [-1]) + 1
+            missing = [n for n in range(nmax) if n not in mapped]
+            found = [mapped.get(n) for n in range(nmax)]
+            if missing or len(taken) != len(find_loops(src, ob, cb)):
+                info.degraded.append('%s: loops by header: %d of %d found, %d other loop(s)' % (key, len(mapped), nmax, len(find_loops(src, ob, cb)) - len(taken)))
+            # entries of loops that are not there are skipped below
+            loops = dict((k, v) for k, v in loops.items() if k in mapped)
+            found = [f if f is not None else (0, 0) for f in found]
         for ordinal, inv in loops.items():
             if ordinal >= len(found):
                 # a loop is gone: the remaining ones keep their invariants by ordinal and the function is verified as it is, but a
@@ -539,20 +558,20 @@ def process_fn(src, unit, key, spec, s, hp, ob, cb, add_edit, canary, disabled_r
             add_edit(lob, lob, '\n' + inv.strip() + '\n' + indent + '    ', prio=1)
         # obligations stated inside a loop body (part of the contract, unlike hints: never dropped when anchors are lost)
         for ordinal, asserts in spec.get('loop_obligations', {}).items():
-            if ordinal >= len(found):
+            if ordinal >= len(found) or (heads and ordinal not in mapped):
                 continue
             kwp, lob = found[ordinal]
             add_edit(lob + 1, lob + 1, obligation_text(info, key, asserts, default_props), prio=4)
         # name the ghost iterator of a `for` loop (`for x in e` -> `for x in iter: e`): Verus-only annotation, erased
         for ordinal, gname in spec.get('loop_iter', {}).items():
-            if ordinal >= len(found):
+            if ordinal >= len(found) or (heads and ordinal not in mapped):
                 continue
             kwp, lob = found[ordinal]
             mt = re.search(r'\bin\b\s+', text[kwp:lob])
             if not text[kwp:].startswith('for') or not mt:
                 raise AnchorLost('%s: loop #%d is not a for loop' % (key, ordinal))
             add_edit(kwp + mt.end(), kwp + mt.end(), gname + ': ', prio=1)
-        if spec.get('loop_count') is not None and spec['loop_count'] != len(found):
+        if not heads and spec.get('loop_count') is not None and spec['loop_count'] != len(found):
             # fewer or extra loops: the invariants may sit on the wrong loops and the new loop has none.  The function is verified as it
             # is, but a failure is trusted only together with a concrete failing input (same rule as for lost hint anchors)
             info.degraded.append('%s: expected %d loops, found %d' % (key, spec['loop_count'], len(found)))
